@@ -43,8 +43,8 @@ def evalbatch(path, cwd, timeout=3000, ok=lambda out: True):
             res = common.Result(-1, "cannot start evalbatch: %s" % ex)
         if res.rc == 0 and ok(res.out):
             return res
-        time.sleep(5 + 10 * attempt)
-        for _ in range(120):                      # wait for a rebuild in progress to finish
+        time.sleep(3 + 5 * attempt)
+        for _ in range(1200):                     # a rebuild removes the directory first and writes STAMP last: wait for it
             if os.path.exists(os.path.join(build.BUILD, VARIANT, "STAMP")) and os.path.exists(exe):
                 break
             time.sleep(1)
@@ -549,6 +549,13 @@ class ContAggregator:
                            "last_op": opn, "last_ops": lastops, "history": describe(lib, h), "codes": h, "cases": cnt,
                            "got": got, "want": want, "reproduced_alone": same},
                           what, cont_replay_text(lib, h, want))
+        for libname in sorted(lib_states):
+            lib = get_lib(libname)
+            al = lib.alphabet(1)
+            st = lib.replay(al[:1] + al[-2:-1] + al[len(al) // 2:len(al) // 2 + 1])
+            if st is not None:          # one actual history of this run, with the line the model predicts for it
+                h = "".join(chr(C.CODE0 + c) for c in (al[:1] + al[-2:-1] + al[len(al) // 2:len(al) // 2 + 1]))
+                chk.sample("%s history [%s] -> %s" % (libname, describe(lib, h), lib.line(*st[-1])[:160]), cap=12)
         chk.cov["containers"] = cov
         chk.cov["states"] = states
         chk.cov["transitions"] = transitions
@@ -708,7 +715,7 @@ def run_job(job):
 
 
 def main(tier, replay=None):
-    chk = Check("C18", "model_checking", tier, quick_s=150, thorough_s=1170)
+    chk = Check("C18", "model_checking", tier, quick_s=125, thorough_s=1100)
     chk.clean_replays()
     chk.max_reported = 120
     build.build_variant(VARIANT)
